@@ -254,18 +254,24 @@ impl HalfConnection {
             let rtt_s = self.send_rate_comp.rtt_s();
 
             let delta_time = (now - time_last_flushed).as_secs_f64();
-            let new_bytes = (send_rate * delta_time).round() as isize;
+            let new_bytes = (send_rate * delta_time).floor();
             let alloc_max = (send_rate * rtt_s.unwrap_or(0.0)).round() as isize;
 
-            if new_bytes == 0 && self.flush_alloc < alloc_max {
-                // Less than one byte of credit has accrued since the last refill. Keep the
-                // time base so that the elapsed time is not lost: at low send rates (or short
-                // step intervals) rounding every increment to zero would otherwise stall the
-                // connection forever.
+            let new_alloc = self.flush_alloc.saturating_add(new_bytes as isize);
+
+            if new_alloc < alloc_max && send_rate > 0.0 {
+                // Only whole bytes are credited, and only the time which paid for them is
+                // consumed: the remainder carries over to the next refill. Rounding each
+                // increment instead either stalls the connection for good (every increment
+                // rounds to zero at low send rates or short step intervals) or, rounding up
+                // time after time, exceeds the send rate.
+                self.flush_alloc = new_alloc;
+                self.time_last_flushed = Some(time_last_flushed + time::Duration::from_secs_f64(new_bytes / send_rate));
                 return;
             }
 
-            self.flush_alloc = self.flush_alloc.saturating_add(new_bytes).min(alloc_max);
+            // The allocation is full; the rest of the elapsed time earns nothing
+            self.flush_alloc = new_alloc.min(alloc_max);
 
             //println!("dt: {}s, rtt: {:?}s, rate: {}B/s, new: {}B, max: {}B, val: {}B",
             //       delta_time, rtt_s, send_rate, new_bytes, alloc_max, self.flush_alloc);
